@@ -3,7 +3,7 @@
 They wrap namespaced methods of the node classes from the outside.  If the wrapped names disappear the probe
 reports nothing, and the violation is then reported as an ordinary VIOLATION (fail-safe direction)."""
 
-counters = {'prefilter_drops': 0, 'partial_list_prune': 0, 'list_index_clipped': 0, 'colliding_index_keys': 0}
+counters = {'prefilter_drops': 0, 'partial_list_prune': 0, 'list_index_clipped': 0, 'colliding_index_keys': 0, 'list_onto_surviving_mapping': 0}
 installed = {'collision': False}
 _installed = False
 
@@ -71,5 +71,20 @@ def install():
             return orig_merge(self, prefix, other)
         lns._names['on_merge_impl'] = on_merge_impl
         installed['collision'] = True
+    except Exception:
+        pass
+    try:
+        # a (deleting) list merged onto a plain mapping which keeps protected entries: the mapping stays and the elements of the list
+        # are written into it under integer keys - merging the same list again meets another older value
+        from awesomeyaml.nodes.composed import ComposedNode
+        cns = ComposedNode.__dict__['ayns']
+        orig_cmerge = cns._names['on_merge_impl']
+
+        def c_on_merge_impl(self, path, other):
+            ret = orig_cmerge(self, path, other)
+            if type(self).__name__ == 'ConfigDict' and isinstance(other, list) and isinstance(ret, dict) and len(ret):
+                counters['list_onto_surviving_mapping'] += 1
+            return ret
+        cns._names['on_merge_impl'] = c_on_merge_impl
     except Exception:
         pass
